@@ -192,8 +192,11 @@ def _call(args):
             return getattr(mod, fname)(job)
         finally:
             _cov_tick()
-    except Exception as e:  # harness bug or import error: machinery, not a verdict
-        return dict(machinery_error='%s: %s' % (type(e).__name__, e), tb=traceback.format_exc(), job=job)
+    except Exception as e:  # harness bug or import error: machinery, not a verdict - unless the library itself raised
+        frames = traceback.extract_tb(e.__traceback__)
+        lib = [fr for fr in frames if '/rsome/' in fr.filename.replace('\\', '/')]
+        return dict(machinery_error='%s: %s' % (type(e).__name__, e), tb=traceback.format_exc(), job=job, library=bool(lib),
+                    exc_type=type(e).__name__, where=('%s:%s' % (os.path.basename(lib[-1].filename), lib[-1].name)) if lib else None)
 
 
 def _call_chunk(args):
@@ -238,4 +241,11 @@ def pmap(modname, fname, jobs, workers=None, chunksize=8, quiet=True):
 
 
 def machinery_failures(results):
-    return [r for r in results if isinstance(r, dict) and 'machinery_error' in r]
+    """Replay jobs that ended with an exception the suite did not classify.  When the exception was raised INSIDE the library
+    (the harness was building / formulating / solving a model of the family, which works on a tree where the property holds)
+    this is an observation about the code, not a broken harness: LibraryFailure, which bin/check reports as a violation."""
+    bad = [r for r in results if isinstance(r, dict) and 'machinery_error' in r]
+    if bad and all(b.get('library') for b in bad):
+        from harness.tlc import LibraryFailure
+        raise LibraryFailure('%d replay job(s) ended with an exception raised inside rsome: %s' % (len(bad), bad[0]['machinery_error']), bad)
+    return bad
